@@ -197,7 +197,7 @@ macro_rules! by_len {
 }
 
 fn arr(n: usize, script: &[u8]) -> Option<String> {
-    by_len!(n, script, 0 1 2 3 4 5 6 7 8 9 10 11 12 13 14 15 16 17 31 32 33 64)
+    by_len!(n, script, 0 1 2 3 4 5 6 7 8 9 10 11 12 13 14 15 16 17 31 32 33 64 255 256 257 1000)
 }
 
 fn arrnest(outer: usize, inner: usize, script: &[u8]) -> Option<String> {
@@ -257,7 +257,7 @@ pub fn run(op: &str, args: &[&str]) -> Option<String> {
         "arru8" if args.len() == 2 => {
             let n: usize = args[0].parse().ok()?;
             let b = unhex(args[1]);
-            Some(u8_by_len!(n, &b, 0 1 2 3 4 5 6 7 8 9 10 11 12 13 14 15 16 17 31 32 33 64).unwrap_or_else(|| "skip unsupported-length".to_string()))
+            Some(u8_by_len!(n, &b, 0 1 2 3 4 5 6 7 8 9 10 11 12 13 14 15 16 17 31 32 33 64 255 256 257 1000).unwrap_or_else(|| "skip unsupported-length".to_string()))
         }
         _ => None,
     }
